@@ -10,7 +10,7 @@ package poll
 // to the connection with the addressed id; Done is called exactly once on every path.
 //@ func (*PollWorker).Process
 //@ props C18
-//@ nopanic C13
+//@ nopanic C13 C18
 //@ use-contracts get
 //@ funcvalue ^mesg\.Done$ records done
 //@ requires w != nil && mesg != nil && mesg.Done != nil && w.connections.conns != nil
@@ -26,7 +26,7 @@ package poll
 // K is an arbitrary index: what is proved for it holds for every registered connection of the group.
 //@ func (*connections).get
 //@ props C18
-//@ nopanic C13
+//@ nopanic C13 C18
 //@ records get
 //@ ghost K int
 //@ elem conns assume elem != nil && elem.ch != nil && !closed(elem.ch) && elem.group == group
@@ -42,7 +42,7 @@ package poll
 // (limit reached) or registered under its own group and counted.
 //@ func (*connections).add
 //@ props C18
-//@ nopanic C13
+//@ nopanic C13 C18
 //@ elem conns assume elem != nil && elem.ch != nil && !closed(elem.ch) && elem.ch != conn.ch
 //@ requires cs != nil && cs.conns != nil && cs.cnt != nil && conn != nil && conn.ch != nil && !closed(conn.ch)
 //@ requires cs.len >= 0 && cs.len <= 1000000000 && len(cs.conns[conn.group]) >= 0 && cs.max >= 0
@@ -55,7 +55,7 @@ package poll
 // connection), closes its channel and keeps the counters in step; nothing else leaves the registry.
 //@ func (*connections).rmv
 //@ props C18
-//@ nopanic C13
+//@ nopanic C13 C18
 //@ records rmv
 //@ elem conns assume elem != nil && elem.ch != nil && !closed(elem.ch)
 //@ requires cs != nil && cs.conns != nil && cs.cnt != nil && conn != nil && conn.ch != nil
